@@ -24,7 +24,9 @@ import gzip
 import zlib
 
 import brotli
-from hypothesis import strategies as st
+
+import runner
+from dmgen import pick
 
 try:  # same import dance as mitmproxy, but the reference calls the library directly
     from compression import zstd  # type: ignore
@@ -33,7 +35,7 @@ except ImportError:  # pragma: no cover
 
 PID = "C31"
 LEVEL = "exploration"
-TECHNIQUE = "Hypothesis op-sequence generation; reference decoders + fresh-cache twin execution (metamorphic)"
+TECHNIQUE = "seeded-PRNG op-sequence generation; reference decoders + fresh-cache twin execution (metamorphic)"
 RULE = ("histories of <=16 ops over 3 messages and a pool of <=4 bodies (b'' always present) x 15 coding spellings; "
         "non-trivial = at least one step runs while the process-wide codec cache holds an entry for the same coding "
         "and the same body/raw value (hit or poisoning opportunity); distinct by (op kind, coding, hit) sequence and "
@@ -44,7 +46,7 @@ ASSUMPTIONS = ["gzip/zlib/brotli/zstd library decoders called directly are the r
 LEVEL_TEXT = ("randomised histories against reference decoders and a fresh-cache twin; finds history dependence only "
               "for cache states reachable within 16 steps over <=4 bodies")
 LEVEL_NOTE = "trusts the compression libraries' own decoders as reference"
-QUICK_N, THOROUGH_N = 80_000, 2_000_000
+QUICK_N, THOROUGH_N = 240_000, 4_000_000
 
 SUPPORTED = ("gzip", "deflate", "br", "zstd")
 CODINGS = ["gzip", "deflate", "br", "zstd", "identity", "GZip", "BR", "Zstd", "DEFLATE", "Identity", "none",
@@ -115,7 +117,6 @@ def refdec(ce, raw):
 
 # ------------------------------------------------------------------ generator
 _FIXED_BODIES = [b"a", b"hello", b"hello world " * 4, b"\x00" * 32, b"<html>\xc3\xa9</html>", b";", b"\x1f\x8b"]
-_body = st.one_of(st.sampled_from(_FIXED_BODIES), st.binary(min_size=1, max_size=48))
 _SUP = ["gzip", "deflate", "br", "zstd", "BR", "GZip"]
 _CODW = CODINGS + _SUP * 3            # coding choice weighted towards the supported ones
 _KINDS = ["nop", "hdr", "hdr", "hdrsup", "te", "set", "set", "set", "get", "get", "raw", "raw", "rawm", "rawm", "decode",
@@ -123,7 +124,7 @@ _KINDS = ["nop", "hdr", "hdr", "hdrsup", "te", "set", "set", "set", "get", "get"
 
 
 def decode_ops(prog):
-    """4 program bytes -> one op (generation is a single bytes draw: Hypothesis draw cost dominated otherwise)"""
+    """4 program bytes -> one op (compact program encoding; hand-written replays may give 'ops' explicitly)"""
     ops = []
     last_sup, last_bi, last_mi = "br", 0, 0
     for i in range(0, len(prog) - 3, 4):
@@ -173,13 +174,14 @@ def decode_ops(prog):
     return ops
 
 
-def strategy(ctx):
-    return st.fixed_dictionaries({
-        "kinds": st.integers(0, 7),
-        "init": st.binary(min_size=3, max_size=3),   # initial Content-Encoding + matching raw body per message
-        "bodies": st.lists(_body, min_size=0, max_size=3),
-        "prog": st.binary(min_size=24, max_size=64),
-    })
+def build(rnd):
+    """seeded-PRNG generation (runner.fast): message kinds, initial codings, <=3 extra bodies, 6..16 op words"""
+    bodies = [pick(rnd, _FIXED_BODIES) if rnd.random() < 0.5 else rnd.randbytes(rnd.randint(1, 48)) for _ in range(rnd.randint(0, 3))]
+    return {"kinds": rnd.randint(0, 7), "init": rnd.randbytes(3), "bodies": bodies, "prog": rnd.randbytes(4 * rnd.randint(6, 16))}
+
+
+def run(ctx):
+    runner.fast(ctx, build, check_case, ctx.n(QUICK_N, THOROUGH_N))
 
 
 # ------------------------------------------------------------------ interpreter
